@@ -94,7 +94,7 @@ def create_stub_files(
         if is_package_module:
             # Cut out the last part of the path, since we don't want "path/to/package/package.sdsstubs" but
             # "path/to/package.sdsstubs" so that "package" is not doubled
-            corrected_module_dir = Path("/".join(module_dir.parts[:-1]))
+            corrected_module_dir = module_dir.parent
         else:
             corrected_module_dir = module_dir
 
